@@ -1,7 +1,7 @@
 """Property -> rules registry (DESIGN.md sections 0, 4, 5)."""
 import copy
 
-from rules import x_emit, x_macro, x_range, x_split, g_thread, g_cover, g_alt, g_struct, g_lex, k_keywords, t_tree, x_pp, x_calls, w_api, s_state, p_panic
+from rules import x_emit, x_macro, x_range, x_split, g_args, g_thread, g_cover, g_alt, g_struct, g_lex, k_keywords, t_tree, x_pp, x_calls, w_api, s_state, p_panic
 
 TRUSTED_BASE = [
     'rustc front end / MIR construction (nightly 1.97) and syn 2 as parsers of the Rust sources',
@@ -14,7 +14,7 @@ _cache = {}
 
 MODULES = {
     'g_thread': g_thread.run, 'g_cover': g_cover.run, 'g_alt': g_alt.run, 'g_struct': g_struct.run,
-    'x_emit': x_emit.run, 'x_macro': x_macro.run, 'x_range': x_range.run, 'x_split': x_split.run, 'g_lex': g_lex.run, 's_state': s_state.run, 'p_panic': p_panic.run,
+    'x_emit': x_emit.run, 'x_macro': x_macro.run, 'x_range': x_range.run, 'x_split': x_split.run, 'g_args': g_args.run, 'g_lex': g_lex.run, 's_state': s_state.run, 'p_panic': p_panic.run,
     'k_keywords': k_keywords.run, 't_tree': t_tree.run, 'x_pp': x_pp.run, 'x_calls': x_calls.run, 'w_api': w_api.run,
 }
 # rule id -> module that computes it
@@ -30,7 +30,7 @@ RULE_HOME = {
     'W1': 'w_api', 'W2': 'w_api', 'W3': 'w_api', 'W4': 'w_api', 'W5': 'w_api', 'W6': 'w_api',
     'G2': 'g_lex', 'G4': 'g_lex',
     'S1': 's_state', 'S2': 's_state', 'S3': 's_state', 'S4': 's_state', 'S5': 's_state', 'S6': 's_state', 'S7': 's_state',
-    'P1': 'p_panic', 'X4': 'x_emit', 'X13': 'x_macro', 'X14': 'x_macro', 'X15': 'x_macro', 'X16': 'x_macro', 'X17': 'x_range', 'X18': 'x_split', 'X19': 'x_split',
+    'P1': 'p_panic', 'X4': 'x_emit', 'X13': 'x_macro', 'X14': 'x_macro', 'X15': 'x_macro', 'X16': 'x_macro', 'X17': 'x_range', 'X18': 'x_split', 'X19': 'x_split', 'G6t': 'g_alt', 'G16': 'g_args', 'G17': 'g_args',
 }
 
 
@@ -69,7 +69,7 @@ LOOKAHEAD = ['lookahead-no-boundary']
 PROPS = {
     'C01': {
         'rules': [rule('G0'), rule('G1'), rule('G2'), rule('G3'), rule('G4'), rule('G10'), rule('G11'), rule('T1'), rule('T2'), rule('T3'),
-                  rule('G4c'), rule('W4'), rule('W5')],
+                  rule('G4c'), rule('W4'), rule('W5', drop=['get_str_trim:'])],
         'explanation': 'Structural-induction premises for "the leaves of the tree tile the preprocessed text". Terminals: the token '
                        'helpers keep the lexeme and its trailing trivia (G0, G1 on the helper closures); multi-fragment lexemes join their '
                        'fragments in order and convert the whole joined span (G2, 28 lexeme functions); Locate = byte offset / line / '
@@ -96,15 +96,16 @@ PROPS = {
         'needs_exp': True,
     },
     'C02': {
-        'rules': [rule('G5'), rule('G6'), rule('G7', drop=LOOKAHEAD), rule('G8'), rule('G1'), rule('G3'), rule('T1'), rule('T2')],
+        'rules': [rule('G5'), rule('G6'), rule('G7', drop=LOOKAHEAD), rule('G8'), rule('G1'), rule('G3'), rule('T1'), rule('T2'), rule('G17', keep=['string-literal:'])],
         'explanation': 'Necessary conditions for "accepted and classified under their production", anchored in the three stated '
                        'mechanisms. One parser per production, every production addressable: every parser is reachable from an '
                        'entry and every CST struct / enum variant (the repository\'s own copy of Annex A: 936 structs, 1048 '
                        'variants) is constructed by a reachable parser (G5); a keyword arm builds the variant named after the '
                        'keyword (G8). Ordered choice picks the intended production: no alternative is shadowed by an earlier '
                        'literal alternative (G6). Keywords need a word boundary: word-shaped terminals go through keyword(), '
-                       'whose every success path tests the boundary over the identifier alphabet (G7).',
-        'decided': 'G5 G6 G7a/c G8 — coverage, ordering and word-boundary necessary conditions; G1 G3 T1 T2 for the clause "every identifier or keyword of the source is exactly one leaf / each construct appears exactly once" (consumed outputs are kept once, children are enumerated once, in order)',
+                       'whose every success path tests the boundary over the identifier alphabet (G7). All literal forms: the string-literal '
+                       'lexeme follows the escape discipline of 5.9 (G17).',
+        'decided': 'G5 G6 G7a/c G8 G17 — coverage, ordering and word-boundary necessary conditions; G1 G3 T1 T2 for the clause "every identifier or keyword of the source is exactly one leaf / each construct appears exactly once" (consumed outputs are kept once, children are enumerated once, in order)',
         'not_decided': 'acceptance of all Annex A sentences (needs the Annex A BNF, absent from the repository, and a PEG/CFG inclusion '
                        'check); non-literal shadowing between alternatives',
         'assumptions': ['the CST type definitions are the reference for "the Annex A node kind of a construct"'],
@@ -204,7 +205,7 @@ PROPS = {
         'technique': 'nullability fixed point over the grammar IR + sibling IR equality',
     },
     'C16': {
-        'rules': [rule('T1'), rule('T2'), rule('T3'), rule('T4'), rule('W5')],
+        'rules': [rule('T1'), rule('T2'), rule('T3'), rule('T4'), rule('W5', keep=['get_str_trim:', 'get_str:'])],
         'explanation': 'Children are enumerated in source (field) order by every RefNodes conversion (T1) and by the generated '
                        'Node::next of all node types; RefNode::next / into_iter / From<&AnyNode> dispatch every variant to its own '
                        'payload (T2); Iter is constructed with its stack reversed exactly once at each of its construction sites (T3).',
@@ -272,14 +273,16 @@ PROPS = {
         'needs_mir': True,
     },
     'C12': {
-        'rules': [rule('S3'), rule('G0'), rule('G12'), rule('G14'), rule('G5')],
+        'rules': [rule('S3'), rule('G0'), rule('G12'), rule('G14'), rule('G5'), rule('G6t')],
         'explanation': 'A directive parsed as trivia leaves the directive stack and the keyword-version stack as it found them on every '
                        'path: forward dataflow over the MIR CFG of all 8310 bodies of the parser crate computes the net effect at each '
                        'return; every body is neutral except the two directives whose meaning is the effect (S3). Every grammar-level '
                        'terminal skips trivia through ws(); raw lexers occur only inside lexemes, inline token definitions or '
                        'look-ahead; tokens without trailing trivia are joined only in the enumerated contexts (G12). The four trivia '
-                       'kinds and `resetall as a description are reachable and constructed (G5).',
-        'decided': 'S3 G12 G5',
+                       'kinds and `resetall as a description are reachable and constructed (G5). Inside the grammar the trivia function can '
+                       'reach (blanks, comments, directives kept as trivia: where a directive ends decides what the parser sees after it) no '
+                       'alternative of an ordered choice is shadowed by an earlier literal alternative (G6t).',
+        'decided': 'S3 G0 G12 G14 G5 G6t',
         'not_decided': 'equality of trees under re-layout (a relation between two runs)',
         'assumptions': [],
         'level_text': 'Path-sensitive (per-CFG-path) scope-balance analysis on MIR + token-layering lint over the grammar.',
@@ -334,13 +337,15 @@ PROPS = {
         'needs_mir': True,
     },
     'C06': {
-        'rules': [rule('X4', drop=['strip-']), rule('X1'), rule('G10'), rule('G15')],
+        'rules': [rule('X4', drop=['strip-']), rule('X1'), rule('G10'), rule('G15'), rule('G17', keep=['string-literal:'])],
         'explanation': 'Restricted to the directive-free part of the pp type graph (SourceDescription::{Comment, StringLiteral, NotDirective, '
                        'EscapedIdentifier} and their trivia) every leaf is emitted exactly once: each variant has an emitting arm (X4b), an '
                        'arm that pushes its whole node either skips the node, or suppresses exactly the descendants that would emit '
                        'again, or the node is a single leaf (X4a); each emission records its own range as origin (X1) — identity on text '
-                       'and offsets; the preprocessor applies all_consuming to pp_parser, so nothing is dropped silently (G10).',
-        'decided': 'X4a X4b X1 G10 G15 (G15: a token-level boundary test that needs a next character has an end-of-input alternative, so text ending right after the token is not rejected)',
+                       'and offsets; the preprocessor applies all_consuming to pp_parser, so nothing is dropped silently (G10). The string '
+                       'alternative of the partition ends a literal only at an unescaped quote: its interior stops at quote and backslash and '
+                       'every backslash takes the next character with it (G17), so a string is rejected only when it is unterminated.',
+        'decided': 'X4a X4b X1 G10 G17 G15 (G15: a token-level boundary test that needs a next character has an end-of-input alternative, so text ending right after the token is not rejected)',
         'not_decided': 'the rejection clause (which inputs pp_parser rejects); the fixed-point clause (a relation between two runs)',
         'assumptions': ['below a CompilerDirective node white_space yields only WhiteSpace::Space (premise checked from the white_space body and the begin/end_directive bracket)'],
         'level_text': 'Arm-by-arm emission analysis over the CST type graph: each arm that can emit a leaf twice or a kind without handler is named.',
@@ -361,7 +366,7 @@ PROPS = {
         'technique': 'named-parameter threading lint + per-handler emission classes under the flag',
     },
     'C05': {
-        'rules': [rule('X13'), rule('X18'), rule('X19'), rule('X9'), rule('X10'), rule('X4', drop=['strip-', 'double-emission'])],
+        'rules': [rule('X13'), rule('X18'), rule('X19'), rule('G16'), rule('G17', keep=['argument-string:']), rule('X9'), rule('X10'), rule('X4', drop=['strip-', 'double-emission'])],
         'explanation': 'NARROW claim: the structural clauses of macro expansion and the run-splitting of the macro body are decided; '
                        'the rewrite chain applied to each run and the argument lexer are not. '
                        'Misuse is reported by name: DefineNotFound carries the name that was used, DefineArgNotFound the formal that got '
@@ -376,14 +381,15 @@ PROPS = {
                        'identifier-only run (no substitution inside strings), a // inside a string does not start a comment, and the '
                        'two-character tokens of the rewrite chain are not cut by a run boundary (X18). Each run is looked up under itself in the '
                        'formal/actual map and replaced by the bound value, any other run is appended after the literal rewrite chain, which '
-                       'agrees with the 22.5.1 table and rewrites a token before the tokens it contains (X19). The expansion is preprocessed '
+                       'agrees with the 22.5.1 table and rewrites a token before the tokens it contains (X19). The argument lexer separates '
+                       'arguments at commas only outside matched (), [], {} and strings: class sets, group alternatives and the nested '
+                       'level are checked (G16), and its string chunk follows the escape discipline (G17). The expansion is preprocessed '
                        'again with the live define table and the table it returns is adopted (X9, X10): nested usages see the table '
                        'current at the point of use. The usage node has a handler that replaces it and keeps the blanks after it once '
                        '(X4b).',
-        'decided': 'X13 X18 X19 X9 X10 X4b — error payloads, positional binding with defaults, body-less macros, run-splitting of the macro '
+        'decided': 'X13 X18 X19 G16 G17 X9 X10 X4b — error payloads, positional binding with defaults, body-less macros, run-splitting of the macro '
                    'body (identifier runs, opaque strings and comments, nothing lost), live-table threading, usage replaced once',
-        'not_decided': 'the '
-                       'argument lexer of the usage (nested brackets, strings, commas), a `" inside an ordinary string literal (not '
+        'not_decided': 'trimming of actual arguments, a `" inside an ordinary string literal (not '
                        'judged), and the concatenated text as a value',
         'assumptions': [],
         'level_text': 'Structural audit of the macro resolver (error discipline, binding loop shape, table threading) plus an exhaustive '
